@@ -53,7 +53,7 @@ fn run(variant: Variant, case: &Case, obs: &mut Obs) -> Result<(), Failure> {
 }
 
 fn exhaustive(ctx: &mut Ctx) {
-    let len = ctx.scale(5, 7);
+    let len = ctx.scale(5, 6);
     let prologue = vec![Op::CreatePub(PubCfg { max_loans: 2, bp: Bp::Discard, max_slice: 8 })];
     let alphabet = vec![
         Op::SendCopy { p: 0, len: 8 },
